@@ -4,5 +4,14 @@ func init() {
 	register(&Property{ID: "C12", Title: "constructors", Rules: []Rule{
 		{"R14-domain-message", ruleDomainMessage},
 		{"R14-domain-nodes", ruleDomainNodes},
+		{"R13", ruleCkRep()},
+		{"R9", ruleErrDiscipline},
+		{"R4", ruleShiftTrunc},
+		{"R8h", ruleRecursion("hsms")},
+		{"R8s", ruleRecursion("sml")},
+		{"R7h", ruleContain("hsms")},
+		{"R7s", ruleContain("sml")},
+		{"R6h", ruleAllocBound("hsms")},
+		{"R6s", ruleAllocBound("sml")},
 	}, Explanation: "tmp"})
 }
